@@ -40,8 +40,8 @@ check("C14", "net-sim", "exploration",
       "DESIGN.md section 4 C14, section 3 E1")
 check("C16", "net-sim", "exploration",
       "deterministic simulation with an adversarial registered peer: forged / relabelled signature submissions interleaved with honest traffic under a seeded scheduler; per-row verification under the registered key of the named party",
-      "Seeded search over histories in which a peer re-submits observed signatures under other names (registered, unregistered, with altered index lists) through the HTTP route and the buffered path; after every event every single_signature row is verified for its open message under the key that very party registered, conservation of honest rows and the certificate's signer list are checked.",
-      "The DMQ consumer ingress path is not simulated; same doubles as C14.",
+      "Seeded search over histories in which a peer re-submits observed signatures under other names (registered, unregistered, with altered index lists), or signs with its own next-epoch key, through the HTTP route, the buffered path and the message-queue path (simulated DMQ node in front of the repository's deduplicating consumer client, DMQ signature consumer and sequential signature processor); after every event every single_signature row is verified for its open message under the key that very party registered; conservation of honest rows, recording of every honest signature that reaches an open round (nobody can suppress another party's contribution) and the certificate's signer list are checked. One known finding (C16-dmq-dedup-ignores-sender) is attributed by its trigger and confirmed by a counterfactual re-run without the deduplicating client.",
+      "The DMQ node itself (envelope authentication, network) is a double: it hands (payload, pool id) pairs to the consumer; same doubles as C14.",
       "DESIGN.md section 4 C16")
 check("C02", "net-sim", "exploration",
       "deterministic simulation of the signature delivery network (duplicates, reordering, damage, index-subset re-encodings, cross-round mixing) with a clerk probe: the real aggregation entry point is run on every prefix of the delivery log against an independent recount",
